@@ -4,7 +4,7 @@
    (assemble_chains = Modify.modify for all hosts and fragments) is the substitution theorem, pending; the check
    decides Modify.modify_all against the library's output per input in extracted Coq. *)
 From Coq Require Import List Bool Arith Lia.
-From GV Require Import Base.Util Spec.Smiles Spec.Chem Spec.Iso Spec.Graft Spec.Modify.
+From GV Require Import Base.Util Spec.Smiles Spec.Chem Spec.Iso Spec.Graft Spec.Modify Spec.Acyl Gen.Tables Proofs.AcylThm.
 Import ListNotations.
 Open Scope list_scope.
 
@@ -29,3 +29,13 @@ Proof.
   - intros -> i Hi. cbn [fuse m_atoms]. rewrite nth_error_app1 by exact Hi. reflexivity.
 Qed.
 Print Assumptions C04_fuse_keeps_sugar.
+
+(* carbon notation: the named fatty acids of the regenerated table are the molecules their systematic designation
+   stands for under Spec/Acyl.v, double-bond geometry included *)
+Theorem C04_named_fatty_acids_are_their_designation name a :
+  In (name, a) named_acyls ->
+  exists frag txt ma mb,
+    lookup_fg name functional_groups = Some frag /\ acyl_text a = Some txt /\
+    sem_str (s2l frag) = Some ma /\ sem_str txt = Some mb /\ same_molecule ma mb = true.
+Proof. exact (named_acyls_agree name a). Qed.
+Print Assumptions C04_named_fatty_acids_are_their_designation.
